@@ -78,7 +78,9 @@ def synthetic_sampler(rng, blobs=True, prior_kind='identity', offset=0.0):
         ll = ll + offset                        # the result must not depend on the likelihood scale
         ll[rng.random(n) < 0.15] = -np.inf      # zero-weight samples
         s.log_l.append(ll)
-        s.blobs.append(np.arange(serial, serial + n, dtype=np.int64))
+        ser = np.arange(serial, serial + n, dtype=np.int64)
+        # blobs of two values with one plain dtype are stored as a 2-d array (one row per sample)
+        s.blobs.append(np.stack([ser, 7 * ser + 1], axis=1) if blobs == '2d' else ser)
         serial += n
     s.bounds = [None] * n_shell
     s.explored = bool(rng.random() < 0.7)
@@ -188,8 +190,17 @@ def one_case(chk, s, boost, rng, label, as_dict=None):
     # multiplicities by serial blob (or by matching rows when there are no blobs)
     if b_eq is not None:
         serial0 = bl
+        if np.ndim(serial0) == 2:          # 2-d blobs: the first column is the serial, the second is 7 * serial + 1
+            if np.ndim(b_eq) != 2 or np.shape(b_eq)[1:] != np.shape(serial0)[1:]:
+                bad('blobs-lose-their-shape', 'blobs of shape %r came back with shape %r' % (np.shape(serial0), np.shape(b_eq)))
+                return None
+            if len(b_eq) and not np.array_equal(b_eq[:, 1], 7 * b_eq[:, 0] + 1):
+                bad('rows-misaligned', 'the two values of a blob row do not belong together')
+            serial0, b_ser = serial0[:, 0], b_eq[:, 0]
+        else:
+            b_ser = b_eq
         idx = {int(v): j for j, v in enumerate(serial0)}
-        rows = [idx.get(int(v), -1) for v in b_eq]
+        rows = [idx.get(int(v), -1) for v in b_ser]
     else:
         ref = w_before[0]
         if isinstance(ref, dict):
@@ -266,7 +277,7 @@ def run(chk):
     for i in range(n_syn):
         kind = ['identity', 'identity', 'Prior', 'dictfn'][i % 4]
         samplers.append(('synthetic-%d-%s-offset=%g' % (i, kind, offsets[i % 7]),
-                         synthetic_sampler(rng, blobs=(i % 5 != 0), prior_kind=kind, offset=offsets[i % 7])))
+                         synthetic_sampler(rng, blobs=(False if i % 5 == 0 else ('2d' if i % 5 == 3 else True)), prior_kind=kind, offset=offsets[i % 7])))
     # states produced by real runs (with -inf samples, with and without discarded exploration)
     for j, (kind, discard) in enumerate([('halfspace', False), ('gauss', True)] if chk.tier == 'quick' else
                                         [('halfspace', False), ('gauss', True), ('bimodal', False), ('steps', True)]):
